@@ -356,7 +356,11 @@ class MethodTr:
             b = Binds(self)
             l, r = self.expr(node.left), self.expr(node.right)
             lt, rt = b.use(l), b.use(r)
-            if l.typ not in (INT, VAL, OPTINT) or r.typ not in (INT, VAL, OPTINT) or INT not in (l.typ, r.typ):
+            # two dynamic values: only `-` (no built-in non-number supports it: `TypeError` exactly when `asInt?` fails;
+            # `+` / `*` mean concatenation / repetition on lists and stay refused)
+            both_dyn = l.typ == VAL and r.typ == VAL and isinstance(node.op, ast.Sub)
+            if l.typ not in (INT, VAL, OPTINT) or r.typ not in (INT, VAL, OPTINT) or \
+                    (INT not in (l.typ, r.typ) and not both_dyn):
                 raise Unsupported(node, 'arithmetic on %s and %s' % (l.typ, r.typ))
             li = self.as_int(b, lt, l.typ, node)
             ri = self.as_int(b, rt, r.typ, node)
@@ -551,6 +555,10 @@ class MethodTr:
         for i, (p, t) in enumerate(params):
             if i < len(args):
                 a = self.expr(args[i])
+                if a.typ == OPTINT and t == INT:
+                    # the callee is specified for ints only: `None` as this argument is NOT MODELLED (`Other`), never guessed
+                    out.append(b.use(E('(optIntArg? %s)' % b.use(a), INT, False)))
+                    continue
                 out.append(self.store_as(b.use(a), a.typ, t, node))
             elif p in info['defaults']:
                 d = info['defaults'][p]
@@ -732,6 +740,9 @@ class MethodTr:
         if isinstance(it, ast.Call) and isinstance(it.func, ast.Name) and it.func.id == 'enumerate' \
                 and len(it.args) == 1 and not it.keywords:
             enum, it = True, it.args[0]
+        if not enum and _self_attr(it, self.self_name) and self.state.get(it.attr) == LVAL \
+                and it.attr not in self.rebound:
+            return self.for_cells(st, it.attr)
         if not (isinstance(it, ast.Name) and it.id == self.self_name):
             raise Unsupported(st, 'for over %s (only `self` / `enumerate(self)`)' % ast.unparse(st.iter))
         src = self._iter_of_self()
@@ -763,6 +774,31 @@ class MethodTr:
         if 'L1:lazy-iteration-over-self' not in self.rules:
             self.rules.append('L1:lazy-iteration-over-self')
         return '(forLazy (fun s => %s) %s %s\n%s lfuel 0 0)' % (self.sget(attr), keep, bind, self.block(st.body))
+
+    def for_cells(self, st: ast.For, attr):
+        """rule L2: `for a, b in self.<A>:` (`<A>` a declared list attribute no method rebinds; a tuple of names as
+        the target): CPython's list iterator over the live list (`forLazy`, every element kept); each element goes to a
+        hidden local and the targets are bound by the ordinary unpacking statement `a, b = <element>` (a cell of the
+        store: `Heap.unpack?`, so an element that is not a 2-slot list raises what Python raises)"""
+        tg = st.target
+        if not (isinstance(tg, ast.Tuple) and len(tg.elts) >= 2 and all(isinstance(x, ast.Name) for x in tg.elts)):
+            raise Unsupported(st, 'for over self.%s: the target must be a tuple of names' % attr)
+        names = {x.id for x in tg.elts}
+        for n in ast.walk(ast.Module(st.body, [])):
+            if isinstance(n, ast.Name) and n.id in names and isinstance(n.ctx, (ast.Store, ast.Del)):
+                raise Unsupported(n, 'assignment to a loop variable')
+        self.n_cell_loops = getattr(self, 'n_cell_loops', 0) + 1
+        hidden = '%%for_element_%d' % self.n_cell_loops     # not a Python identifier: cannot clash
+        fx, tx = self.bind_local(hidden, VAL, st)
+        unpack = ast.copy_location(ast.Assign([ast.Tuple([ast.Name(x.id, ast.Store()) for x in tg.elts], ast.Store())],
+                                              ast.copy_location(ast.Name(hidden, ast.Load()), st)), st)
+        ast.fix_missing_locations(unpack)
+        self.uses_fuel = True
+        if 'L2:iteration-over-cells' not in self.rules:
+            self.rules.append('L2:iteration-over-cells')
+        body = self.block([unpack] + list(st.body))
+        return '(forLazy (fun s => %s) (fun _ => true) (fun _ x s => { s with %s := x })\n%s lfuel 0 0)' % (
+            self.sget(attr), fx, body)
 
     def exc_class(self, st: ast.Raise) -> str:
         if st.cause is not None or st.exc is None:
@@ -1493,6 +1529,10 @@ REJECTS = [
     ('alias bound twice', 'dints = self.dead_indices\n        dints = self.dead_indices\n        dints.append(start)', {}),
     ('list display as an argument', 'self.dead_indices.append([start, start])', {}),
     ('nested display', 'x = [[start], start]', {}),
+    ('sum of two dynamic values (list concatenation)', 'a = self.dead_indices[0]\n        b = self.dead_indices[1]\n        x = a + b', {}),
+    ('for over a list attribute with a single name as the target', 'for d in self.dead_indices:\n            start = start + 1', {}),
+    ('for over a list attribute that another method rebinds', 'for a, b in self.scratch:\n            start = start + 1', {'scratch': 'List Val'}),
+    ('assignment to a variable of a cell loop', 'for a, b in self.dead_indices:\n            a = start', {}),
     ('two dynamic values ordered', 'a = self.dead_indices[0]\n        b = self.dead_indices[1]\n        if a < b:\n            return', {}),
     ('equality of a dynamic value and an int', 'a = self.dead_indices[0]\n        if a == start:\n            return', {}),
     ('true division outside the declared comparison', 'x = start / _COMPACTION_FACTOR', {}),
